@@ -7,8 +7,9 @@ R1.1  the tail that a failed incremental search keeps is at least as long as the
       beginning of a match of the pattern searched next that does not match yet;
 R1.2  the saved search offset is never used against a buffer or a pattern other than the
       one it was computed for (typestate over the protocol states);
-R1.3  the form parser feeds every chunk and drains the decoder after each one; the chunk
-      reader ends on an empty read only and then signals the end;
+R1.3  the form parser feeds every chunk and drains the decoder after each one (followed as the
+      class of the last next_event() result over the CFGs, whatever the loop looks like); the
+      chunk reader ends on an empty read only, loses no read and then signals the end;
 R1.4  a shortcut that releases the whole buffer while waiting for a delimiter fires only
       when the pending tail is longer than the longest incomplete delimiter;
 R1.5  that shortcut measures the pending tail from the last line break, not from an
@@ -32,8 +33,8 @@ from ..fold import Folder, RegexConst, Unfoldable
 from ..loader import AnalysisError, AnchorMissing, ClassInfo, FuncInfo, dotted, is_self_attr, norm, walk_no_nested
 from ..report import Ctx
 from ._c01_helpers import (
-    PLACEHOLDER, SAMPLE_N, Aff, AffEval, Lang, Lin, NotAffine, Roles, SearchSite, Typestate, fit, fmt_off,
-    anchor_summary, bind_args, self_call_closure, strip_max0, windowed_searches,
+    EV_START, PLACEHOLDER, RD_EMPTY, ReadFlow, SAMPLE_N, Aff, AffEval, EvFact, EventFlow, Lang, Lin, NotAffine, Roles, SearchSite, Typestate, fit, fmt_off,
+    anchor_summary, attr_copies, attr_of, bind_args, self_call_closure, state_test_parts, strip_max0, windowed_searches,
 )
 
 LEVEL_TEXT = (
@@ -44,8 +45,16 @@ LEVEL_TEXT = (
     "not counting that word's optional leading part when the match start only feeds the uncompared Preamble bytes; (R1.2) abstract "
     "interpretation of __init__ followed by any sequence of public calls over (protocol state, offset validity): the offset "
     "that reaches a search is 0 or a window computed by a failed search of the same pattern in the same state with no "
-    "buffer prefix deleted since; (R1.3) MultiPartParser.parse hands every chunk to receive_data and then calls next_event "
-    "until NeedData/Epilogue, _chunk_iter yields each read unmodified, stops only on an empty read and then yields None; "
+    "buffer prefix deleted since (the state assigned is read as the set of Enum members the expression can denote: member, conditional "
+    "expression, selection from a literal table, local, parameter of a setter helper, result of a helper; state tests may go through a local copy "
+    "of the state or a named constant set); (R1.3) abstract interpretation of MultiPartParser.parse and of the helpers / generators / nested "
+    "functions it hands the decoder to, over the class of the value next_event() returned last: whenever the next chunk is fed and when parse "
+    "returns that class is NeedData or Epilogue (every test on the event is evaluated for its meaning on the class: isinstance with a class, tuple, "
+    "union or named constant, exact type, identity with the NEED_DATA constant, flags computed from such tests, predicates extracted into a helper; "
+    "the shape of the loop is irrelevant), every chunk of the loop over the chunk generator reaches receive_data unmodified on every path "
+    "(directly or through a helper that is given the decoder and the chunk); the chunk generator is followed over (status of the last read: "
+    "none / empty / pending / yielded): no path reads again or ends with a pending non-empty read, it ends only after an empty read and every "
+    "path to its end yields None last (reads are calls through a parameter, also as the callable of iter(callable, b'')); "
     "(R1.4) in _parse_data every release of the whole buffer without a delimiter is guarded by `pending tail > T` with T >= "
     "the longest incomplete prefix of the delimiter language (folded from boundary_re) that is consistent with what the "
     "branch knows about the buffer; (R1.5) the position that guard measures from, read off the shape of the anchor helper "
@@ -54,7 +63,10 @@ LEVEL_TEXT = (
     "buffer) `deleted prefix - payload start` has a lower bound >= 0 as an affine expression over len(buffer) >= match positions >= 0, "
     "anchor results >= 0 (or >= -1 for an rfind-style anchor) and len(boundary) >= 1, so the line break skipped in front of a part body never "
     "stays in the buffer to be read again as payload. A window assignment that sits in a private helper is read per call site with the helper's "
-    "parameters replaced by the call's arguments. R1.4-R1.7 report a violation only when every condition guarding the release is one "
+    "parameters replaced by the call's arguments; attributes assigned once in __init__ (a precomputed tail length / delimiter text) are read through; "
+    "the buffer and the offset may be read through local copies. In _parse_data release positions are followed through locals, tuple assignments, "
+    "match.span(), conditional expressions (their conditions count as guards) and one-expression helpers (read at the call site); the presence "
+    "test and the threshold test may be held in a local or sit in such a helper. R1.4-R1.7 report a violation only when every condition guarding the release is one "
     "they model (boundary-text presence tests, the start flag, match tests, the threshold) and otherwise stop with "
     "ANALYSIS-ERROR. It decides these clauses on all paths. It does NOT decide the equality of event streams itself: "
     "that the hold-back position is the right cut for every mixture of CR and LF in the payload beyond R1.5/R1.6, the "
@@ -67,7 +79,9 @@ TRUSTED = [
     "the re engine run on a pattern folded from the source against prefixes enumerated from that same pattern",
 ]
 ASSUMPTIONS = [
-    "the hold-back anchor helper is summarised extensionally: its CFG is walked once per order type of its argument (which line-break bytes occur and in which order their last occurrences come) over the values {-1, last index of a byte, len(argument)}, interpreting only order comparisons, min/max and selection; the results must equal min/max over `last index of c, or len / -1 when c is absent` terms (rindex + except ValueError, rfind + test for -1, conditional expressions, walrus, comparing two positions by hand are all read this way); anything else (arithmetic, loops, slices) stops R1.5-R1.7 with ANALYSIS-ERROR",
+    "the hold-back anchor helper (a method, static method or module function) is summarised extensionally: its CFG is walked once per order type of its argument (which line-break bytes occur and in which order their last occurrences come) over the values {-1, last index of a byte, len(argument)}, interpreting only order comparisons, min/max, selection, loops and comprehensions over a literal collection of bytes, lists built by append, and `byte in argument`; the results must equal min/max over `last index of c, or len / -1 when c is absent` terms (rindex + except ValueError, rfind + test for -1, conditional expressions, walrus, comparing two positions by hand, a running minimum in a loop are all read this way); anything else (arithmetic, slices, lookups with a start offset) stops R1.5-R1.7 with ANALYSIS-ERROR",
+    "R1.3: the set of event classes is the subclasses (in the decoder's module) of the class named by next_event's return annotation; NeedData and Epilogue are the terminal ones (after them next_event produces nothing until more data arrives / ever); `event is NEED_DATA` is read as: an event of another class is not that constant, a NeedData event may or may not be; attributes of an event that are declared by an annotation are instance data and do not depend on its class",
+    "R1.3: a use of the value of next_event() that is not followed (stored in an attribute or container, passed to code outside the package, a generator over the decoder driven by hand, the bound method handed to something other than iter(callable, CONSTANT)) makes the paths through it undecided: ANALYSIS-ERROR if such a path can leave the decoder undrained, never a violation",
     "delimiters carry no trailing blanks (the unbounded run [^\\S\\n\\r]* is taken as empty), as in the property's domain",
     "the boundary contains no line break and is not empty",
     "after an exception the decoder is not used again (raising exits are not followed)",
@@ -108,13 +122,31 @@ def find_roles(repo) -> Roles:
         raise AnchorMissing(f"{cls.name}: expected incremental searches `RX.search(self.<buffer>, self.<offset>)` with one buffer and one offset attribute, found buffers {sorted(bufs)} offsets {sorted(offs)}")
     pairs = set()
     for fi in funcs:
+        rd: ReachingDefs | None = None
         for n in walk_no_nested(fi.node):
-            if isinstance(n, ast.Compare) and len(n.ops) == 1 and is_self_attr(n.left):
-                for rhs in [n.comparators[0], *(getattr(n.comparators[0], "elts", []))]:
+            if not (isinstance(n, ast.Compare) and len(n.ops) == 1):
+                continue
+            # either side may be the state (written `self.<attr>` or held in a local copy of it), the other one member(s) of an Enum
+            for subj, other in ((n.left, n.comparators[0]), (n.comparators[0], n.left)):
+                if isinstance(subj, ast.NamedExpr):
+                    subj = subj.value
+                attr = None
+                if is_self_attr(subj):
+                    attr = subj.attr  # type: ignore[attr-defined]
+                elif isinstance(subj, ast.Name):
+                    rd = rd or ReachingDefs(cfg_of(fi), fi.params)
+                    at = cfg_of(fi).node_of(n)
+                    defs = rd.reaching(at, subj.id) if at is not None else frozenset()
+                    srcs = {d.value.attr for d in defs if d.kind in ("assign", "walrus") and d.index is None and d.value is not None and is_self_attr(d.value)}  # type: ignore[union-attr]
+                    if len(defs) == 1 and len(srcs) == 1:
+                        attr = next(iter(srcs))
+                if attr is None:
+                    continue
+                for rhs in [other, *(getattr(other, "elts", []))]:
                     if isinstance(rhs, ast.Attribute) and isinstance(rhs.value, ast.Name) and rhs.value.id in fi.module.classes:
                         ec = fi.module.classes[rhs.value.id]
                         if any((dotted(b) or "").endswith("Enum") for b in ec.base_exprs):
-                            pairs.add((n.left.attr, ec.name))  # type: ignore[attr-defined]
+                            pairs.add((attr, ec.name))
     if len(pairs) != 1:
         raise AnchorMissing(f"{cls.name}: expected one protocol-state attribute compared with Enum members, found {sorted(pairs)}")
     sattr, ename = next(iter(pairs))
@@ -244,7 +276,8 @@ def rules_offset(ctx: Ctx, roles: Roles, pats: Patterns, folder: Folder) -> None
 
     def ev_of(fi: FuncInfo) -> AffEval:
         if fi.qualname not in evals:
-            evals[fi.qualname] = AffEval(fi, folder, {f"self.{roles.buffer}"}, pats.nattr)
+            copies = {name for name, (attr, _) in attr_copies(fi).items() if attr == roles.buffer}  # `buffer = self.buffer`
+            evals[fi.qualname] = AffEval(fi, folder, {f"self.{roles.buffer}"} | copies, pats.nattr, init=(pats.init, pats.param))
         return evals[fi.qualname]
 
     def window_of(fi: FuncInfo, value: ast.AST, node: Node, key: str, stack: tuple = ()) -> str | None:
@@ -288,7 +321,7 @@ def rules_offset(ctx: Ctx, roles: Roles, pats: Patterns, folder: Folder) -> None
                     sub = ev_of(caller).aff(strip_max0(binding[p]), cnode)
                 except NotAffine:
                     return None
-                if "D" in sub.coef and any(ts._buffer_effect_node(x) == "shift" for x in walk_no_nested(cur_fi.node) if is_self_attr(x, roles.buffer)):
+                if "D" in sub.coef and any(ts._buffer_effect_node(x) == "shift" for x in walk_no_nested(cur_fi.node) if ts.is_buf(x, cur_fi)):
                     return None  # the buffer length the caller measured is not the one the helper stores against
                 a = a.subst(s, sub)
             via += f" called as `{norm(call)}` ({caller.loc(call)})"
@@ -401,12 +434,121 @@ def rules_offset(ctx: Ctx, roles: Roles, pats: Patterns, folder: Folder) -> None
         else:
             fact = f"the offset is 0 whenever this statement runs (states {'/'.join(states)}): no branch of these states assigns it"
         ctx.ob("R1.2", f"{fi.qualname}: `{norm(st)}` {what}", not reach, fact, fi, st, f"{norm(st)} in {'/'.join(states)}")
-    ctx.floor("R1.2", "state assignments and buffer deletions followed through the typestate", len([1 for k, (f, _, _) in ts.stmts.items() if f.qualname in closure]), 10)
+    ctx.floor("R1.2", "state assignments and buffer deletions followed through the typestate", len([1 for k, (f, _, _) in ts.stmts.items() if f.qualname in closure]), 4)
     ctx.note(f"R1.2: {n_inval} statement(s) run with a live search window and invalidate it")
 
 
 # ---------------------------------------------------------------------------
 # R1.3
+
+
+TERMINAL_EVENTS = ("Epilogue", "NeedData")
+
+
+def find_decoder(repo, flow: EventFlow, parse: FuncInfo, dec_cls: ClassInfo) -> str:
+    """the expression under which `parse` knows the decoder: a local or an attribute of self bound to ``Decoder(...)``, directly or
+    through a helper whose every return is such a construction"""
+
+    def constructs(fi: FuncInfo, v: ast.AST | None, depth: int = 0) -> bool:
+        if not isinstance(v, ast.Call):
+            return False
+        d = dotted(v.func)
+        fq = repo.resolve(fi.module, d) if d else None
+        if fq and repo.try_cls(fq) is dec_cls:
+            return True
+        callee = flow.callee(fi, v)
+        if callee is None or depth > 1:
+            return False
+        rets = astq.returns_of(callee.node)
+        rd = flow.rd_of(callee)
+        ccfg = cfg_of(callee)
+        ok = bool(rets)
+        for r in rets:
+            val = r.value
+            if isinstance(val, ast.Name):
+                defs = rd.reaching(ccfg.node_of(r), val.id)  # type: ignore[arg-type]
+                ok = ok and bool(defs) and all(x.kind == "assign" and x.index is None and constructs(callee, x.value, depth + 1) for x in defs)
+            else:
+                ok = ok and constructs(callee, val, depth + 1)
+        return ok
+
+    names = set()
+    for n in walk_no_nested(parse.node):
+        tgs: list[ast.AST] = []
+        val = None
+        if isinstance(n, ast.Assign):
+            tgs, val = list(n.targets), n.value
+        elif isinstance(n, ast.AnnAssign) and n.value is not None:
+            tgs, val = [n.target], n.value
+        elif isinstance(n, ast.NamedExpr):
+            tgs, val = [n.target], n.value
+        tgs = [x for x in tgs if isinstance(x, ast.Name) or is_self_attr(x)]
+        if tgs and constructs(parse, val):
+            locs = [x for x in tgs if isinstance(x, ast.Name)]
+            names.add(norm(locs[0] if locs else tgs[0]))  # `self.x = dec = Decoder(...)`: the local is the one followed
+    if len(names) != 1:
+        raise AnchorMissing(f"{parse.qualname}: expected one local or attribute bound to {dec_cls.name}(...), found {sorted(names)}")
+    return next(iter(names))
+
+
+def feeding_nodes(flow: EventFlow, fi: FuncInfo, dec: str, is_chunk: t.Callable[[ast.AST, Node], bool], depth: int = 0) -> list[Node]:
+    """CFG nodes of fi that hand the chunk, unmodified, to receive_data: directly, or through a helper that is given the decoder
+    and the chunk and does so on every path"""
+    cfg = cfg_of(fi)
+    out: list[Node] = []
+    for n in cfg.nodes:
+        hit = False
+        for root in flow._roots(n):
+            for c in [root, *walk_no_nested(root)]:
+                if hit or not isinstance(c, ast.Call):
+                    continue
+                m = flow.dec_method(fi, c, n, dec)
+                if m == flow.feed:
+                    arg = c.args[0] if c.args else (c.keywords[0].value if c.keywords else None)
+                    hit = arg is not None and is_chunk(arg, n)
+                    continue
+                if m is not None or depth >= 2:
+                    continue
+                callee = flow.callee(fi, c)
+                p = flow.dec_param(fi, callee, c, dec) if callee is not None else None
+                if callee is None or p is None:
+                    continue
+                binding = bind_args(callee, c) or {}
+                rd2 = flow.rd_of(callee)
+                ccfg = cfg_of(callee)
+                for q, a in binding.items():
+                    if not is_chunk(a, n):
+                        continue
+
+                    def is_q(x: ast.AST, node: Node, q: str = q) -> bool:
+                        defs = rd2.reaching(node, q)
+                        return isinstance(x, ast.Name) and x.id == q and bool(defs) and all(d.kind == "param" for d in defs)
+
+                    inner = feeding_nodes(flow, callee, p, is_q, depth + 1)
+                    if inner and ccfg.all_paths_pass(ccfg.entry, [ccfg.exit], inner):
+                        hit = True
+        if hit:
+            out.append(n)
+    return out
+
+
+def feeds_at_all(flow: EventFlow, fi: FuncInfo, dec: str, stmts: list[ast.stmt], depth: int = 0) -> bool:
+    cfg = cfg_of(fi)
+    for st in stmts:
+        for c in [st, *walk_no_nested(st)]:
+            if not isinstance(c, ast.Call):
+                continue
+            n = cfg.node_of(c)
+            if n is None:
+                continue
+            m = flow.dec_method(fi, c, n, dec)
+            if m == flow.feed:
+                return True
+            callee = flow.callee(fi, c) if m is None else None
+            p = flow.dec_param(fi, callee, c, dec) if callee is not None else None
+            if callee is not None and p is not None and depth < 2 and feeds_at_all(flow, callee, p, callee.node.body, depth + 1):  # type: ignore[attr-defined]
+                return True
+    return False
 
 
 def rules_feed(ctx: Ctx, roles: Roles) -> None:
@@ -415,170 +557,137 @@ def rules_feed(ctx: Ctx, roles: Roles) -> None:
     parse = pcls.methods.get("parse")
     if parse is None:
         raise AnchorMissing(f"{FORM_PARSER}.parse not found")
-    cfg = cfg_of(parse)
-    rd = ReachingDefs(cfg, parse.params)
-    # the decoder object
-    dec_names = set()
-    for n in walk_no_nested(parse.node):
-        if isinstance(n, ast.Assign) and len(n.targets) == 1 and isinstance(n.targets[0], ast.Name) and isinstance(n.value, ast.Call):
-            d = dotted(n.value.func)
-            fq = repo.resolve(parse.module, d) if d else None
-            if fq and repo.try_cls(fq) is roles.cls:
-                dec_names.add(n.targets[0].id)
-    if len(dec_names) != 1:
-        raise AnchorMissing(f"{parse.qualname}: expected one local bound to {roles.cls.name}(...), found {sorted(dec_names)}")
-    dec = next(iter(dec_names))
+    flow = EventFlow(repo, roles.cls)
+    for tname in TERMINAL_EVENTS:
+        if tname not in flow.universe:
+            raise AnchorMissing(f"event class {tname} not found among the subclasses of {flow.base.name}")
+    dec = find_decoder(repo, flow, parse, roles.cls)
 
-    def dec_calls(attr: str) -> list[ast.Call]:
-        return [c for c in astq.method_calls(parse.node, attr, nested=False) if isinstance(c.func.value, ast.Name) and c.func.value.id == dec]  # type: ignore[attr-defined]
+    # the functions that hold the decoder: parse and the helpers it hands it to
+    owners: list[tuple[FuncInfo, str]] = [(parse, dec)]
+    i = 0
+    while i < len(owners) and i < 12:
+        fi, d = owners[i]
+        i += 1
+        for c in walk_no_nested(fi.node):
+            if isinstance(c, ast.Call):
+                callee = flow.callee(fi, c)
+                p = flow.dec_param(fi, callee, c, d) if callee is not None else None
+                if callee is not None and p is not None and all(o[0] is not callee for o in owners):
+                    owners.append((callee, p))
 
-    recvs = dec_calls("receive_data")
-    ctx.floor("R1.3", "receive_data calls in parse", len(recvs), 1)
-    term = {"NeedData", "Epilogue"}
-    for rc in recvs:
-        rnode = cfg.node_of(rc)
-        loop = astq.enclosing(rc, (ast.For, ast.AsyncFor))
-        if rnode is None or loop is None:
-            raise AnalysisError(f"{parse.loc(rc)}: receive_data is not inside a for loop over the chunks")
-        head = cfg.node_of(loop)
-        assert head is not None
-        # (a) every chunk is fed, unmodified
-        arg = rc.args[0] if rc.args else None
-        fed = isinstance(arg, ast.Name) and all(d.kind == "for" and d.stmt is loop for d in rd.reaching(rnode, arg.id)) and bool(rd.reaching(rnode, arg.id))
-        starts = [s for s in cfg.succ(head, "T") if s is not rnode]
-        skipped = any((head.id in r or cfg.exit.id in r) for r in [cfg.reach(starts, avoid_nodes=[rnode])]) if starts else False
-        gen = loop.iter
-        gen_fq = repo.resolve(parse.module, dotted(gen.func) or "") if isinstance(gen, ast.Call) else None
-        chunker = repo.try_func(gen_fq) if gen_fq else None
-        ctx.ob("R1.3", f"{parse.qualname}: every chunk of the loop is handed to receive_data as read", fed and not skipped,
-               f"`{norm(rc)}` argument is the loop variable of `for {norm(loop.target)} in {norm(gen)}`: {fed}; a path through the loop body avoids it: {skipped}",
-               parse, rc, "every chunk fed")
-        # (b) drained until NeedData / Epilogue
-        drains = []
-        for tn in cfg.tests():
-            a = tn.ast
-            if tn.kind != "test":
+    # (a) the loop over the chunks: every chunk is fed, unmodified
+    loops = []
+    for fi, d in owners:
+        rd = flow.rd_of(fi)
+        cfg = cfg_of(fi)
+        for loop in walk_no_nested(fi.node):
+            if not isinstance(loop, (ast.For, ast.AsyncFor)) or not feeds_at_all(flow, fi, d, loop.body):
                 continue
-            ev_name, classes, exit_label = None, None, None
-            if isinstance(a, ast.Call) and isinstance(a.func, ast.Name) and a.func.id == "isinstance" and len(a.args) == 2 and isinstance(a.args[0], ast.Name):
-                elts = a.args[1].elts if isinstance(a.args[1], (ast.Tuple, ast.List)) else [a.args[1]]
-                names = []
-                for e in elts:
-                    fq = repo.resolve(parse.module, dotted(e) or "?")
-                    names.append(fq.rsplit(".", 1)[-1] if fq and repo.try_cls(fq) is not None and repo.try_cls(fq).module is roles.cls.module else "?")
-                ev_name, classes, exit_label = a.args[0].id, set(names), "T"
-            elif isinstance(a, ast.Compare) and len(a.ops) == 1 and isinstance(a.ops[0], (ast.Is, ast.IsNot)) and isinstance(a.left, ast.Name) and isinstance(a.comparators[0], ast.Name):
-                fq = repo.resolve(parse.module, a.comparators[0].id)
-                if fq and fq.endswith(".NEED_DATA"):
-                    ev_name, classes, exit_label = a.left.id, {"NeedData"}, ("T" if isinstance(a.ops[0], ast.Is) else "F")
-            if ev_name is None or "NeedData" not in (classes or set()):
-                continue
-            defs = rd.reaching(tn, ev_name)
-            from_dec = bool(defs) and all(
-                d.kind == "assign" and isinstance(d.value, ast.Call) and d.value in dec_calls("next_event") and d.node is not None and cfg.node_dominates(rnode, d.node)
-                for d in defs
-            )
-            if from_dec:
-                drains.append((tn, exit_label, classes))
-        if not drains:
-            ctx.ob("R1.3", f"{parse.qualname}: next_event is called until NeedData / Epilogue after receive_data", False,
-                   "no test `isinstance(event, (..NeedData..))` on a value that always comes from next_event() after the receive_data call", parse, rc, "drain loop")
-            continue
-        r = cfg.reach(rnode, avoid_edges=[(tn, lab) for tn, lab, _ in drains])
-        leaks = head.id in r or cfg.exit.id in r
-        extra = set().union(*[c for _, _, c in drains]) - term
-        ctx.ob("R1.3", f"{parse.qualname}: next_event is called until NeedData / Epilogue after receive_data", not leaks and not extra,
-               f"the next chunk / the return is reachable only through the exit edge of {[norm(tn.ast) for tn, _, _ in drains]}: {not leaks}; "
-               f"draining stops only at terminal events (extra stop classes: {sorted(extra)})", parse, drains[0][0].ast, "drain loop")
+            head = cfg.node_of(loop)
+            assert head is not None
+            it = loop.iter
+            if isinstance(it, ast.Name):  # `chunks = _chunk_iter(...)` ... `for data in chunks`
+                defs = rd.reaching(head, it.id)
+                if len(defs) == 1 and next(iter(defs)).kind == "assign" and next(iter(defs)).index is None and next(iter(defs)).value is not None:
+                    it = next(iter(defs)).value
+            chunker = flow.callee(fi, it) if isinstance(it, ast.Call) else None
+            if chunker is not None and flow.dec_param(fi, chunker, it, d) is not None:  # type: ignore[arg-type]
+                continue  # a generator that drains the decoder, not the source of the chunks
+            loops.append((fi, d, loop, head, chunker, it))
+    if not loops:
+        raise AnalysisError(f"{parse.loc()}: receive_data is not called inside a for loop over the chunks (in {parse.qualname} or a helper that is handed the decoder)")
+    seen_chunkers = []
+    for fi, d, loop, head, chunker, it in loops:
+        cfg = cfg_of(fi)
+        rd = flow.rd_of(fi)
+        if not isinstance(loop.target, ast.Name):
+            raise AnalysisError(f"{fi.loc(loop)}: the loop over the chunks does not bind one plain variable")
+        var = loop.target.id
+        body_ids = flow._loop_body_ids(fi, loop)
+
+        def is_chunk(x: ast.AST, node: Node) -> bool:
+            defs = rd.reaching(node, var)
+            return isinstance(x, ast.Name) and x.id == var and bool(defs) and all(dd.kind == "for" and dd.stmt is loop for dd in defs)
+
+        sites = [n for n in feeding_nodes(flow, fi, d, is_chunk) if n.id in body_ids]
+        starts = [s_ for s_ in cfg.succ(head, "T") if all(s_ is not x for x in sites)]
+        r = cfg.reach(starts, avoid_nodes=sites) if starts else set()
+        skipped = head.id in r or cfg.exit.id in r
+        others = [c for st in loop.body for c in [st, *walk_no_nested(st)] if isinstance(c, ast.Call) and cfg.node_of(c) is not None
+                  and flow.dec_method(fi, c, cfg.node_of(c), d) == flow.feed and all(cfg.node_of(c) is not x for x in sites)]  # type: ignore[arg-type]
+        where = (sites[0].ast if sites else (others[0] if others else loop))
+        ctx.ob("R1.3", f"{fi.qualname}: every chunk of the loop is handed to receive_data as read", bool(sites) and not skipped,
+               f"`for {var} in {norm(loop.iter)}`: the loop variable reaches receive_data unmodified at {[norm(x.ast)[:60] for x in sites]}"
+               + (f" (other receive_data calls in the loop: {[norm(c) for c in others]})" if others else "")
+               + f"; a path through the loop body avoids it: {skipped}", fi, where, "every chunk fed")
         # (c) the chunk reader
         if chunker is None:
-            raise AnalysisError(f"{parse.loc(loop)}: chunk source `{norm(gen)}` is not a function of the package")
+            raise AnalysisError(f"{fi.loc(loop)}: chunk source `{norm(it)}` is not a function of the package")
+        if all(chunker is not x for x in seen_chunkers):
+            seen_chunkers.append(chunker)
+
+    # (b) drained until NeedData / Epilogue: class of the last next_event() result when the next chunk is fed / at the end
+    start = EvFact(frozenset(), EV_START, False, frozenset())
+    res = flow.flow(parse, dec, frozenset({start}))
+    ctx.floor("R1.3", "receive_data calls reached from parse", len(flow.feed_arrivals), 1)
+    ctx.floor("R1.3", "next_event calls reached from parse", len(flow.fetch_sites), 1)
+    allowed = set(TERMINAL_EVENTS) | {EV_START}
+    leaks: list[tuple[str, FuncInfo, ast.AST, EvFact]] = []
+    for (_, _), (ffi, call, facts) in sorted(flow.feed_arrivals.items(), key=lambda kv: (kv[1][0].fq, kv[1][1].lineno)):
+        for f in facts:
+            if f.cls not in allowed:
+                leaks.append((f"the next chunk is fed (`{norm(call)}`)", ffi, call, f))
+    for f in res.exit:
+        if f.cls not in allowed:
+            leaks.append((f"{parse.qualname} returns", parse, parse.node, f))
+    owner = loops[0][0]
+    if leaks and all(f.murky for _, _, _, f in leaks):
+        w, lfi, lnode, _ = leaks[0]
+        raise AnalysisError(f"{lfi.loc(lnode)}: cannot decide whether the decoder is drained when {w}: the value of next_event() is used in a way that is not modelled "
+                            f"(not bound to a plain local, or tested by a condition on the event that is not understood)")
+    fetches = sorted(flow.fetch_sites.values(), key=lambda fc: (fc[0].fq, fc[1].lineno))
+    seen_at = [f"{sorted({f.cls for w2, _, _, f in leaks if w2 == w and not f.murky})} when {w}" for w in dict.fromkeys(w for w, _, _, f in leaks if not f.murky)]
+    arriving = sorted({f.cls for _, _, facts in flow.feed_arrivals.values() for f in facts} | {f.cls for f in res.exit})
+    ctx.ob("R1.3", f"{owner.qualname}: next_event is called until NeedData / Epilogue after receive_data", not leaks,
+           f"class of the value next_event() returned last when the next chunk is fed or {parse.qualname} returns: {arriving}; "
+           + (f"not drained: {seen_at}" if leaks else f"always one of {sorted(TERMINAL_EVENTS)} (followed through every test on the event: isinstance / identity with a constant / flags / helper predicates)"),
+           owner, (leaks[0][2] if leaks and leaks[0][1] is owner else fetches[0][1] if fetches and fetches[0][0] is owner else owner.node), "drain loop")
+    for ffi, _ in owners:
+        ctx.saw(ffi)
+    for chunker in seen_chunkers:
         rule_chunker(ctx, chunker)
 
 
 def rule_chunker(ctx: Ctx, fi: FuncInfo) -> None:
-    cfg = cfg_of(fi)
-    rd = ReachingDefs(cfg, fi.params)
-    # reads: a local bound (by assignment or by a walrus) to the result of calling a parameter
-    reads = []
-    for n in cfg.nodes:
-        for d in rd.gen[n.id]:
-            if d.kind in ("assign", "walrus") and d.index is None and isinstance(d.value, ast.Call) and isinstance(d.value.func, ast.Name) \
-                    and d.value.func.id in fi.params and all(x.kind == "param" for x in rd.reaching(n, d.value.func.id)):
-                reads.append(d)
-    ctx.floor("R1.3", f"read calls in {fi.qualname}", len(reads), 1)
-    yields = [n for n in walk_no_nested(fi.node) if isinstance(n, ast.Yield)]
-    end_yields = [y for y in yields if y.value is None or (isinstance(y.value, ast.Constant) and y.value.value is None)]
-    data_yields = [y for y in yields if y not in end_yields]
-    ynodes = [cfg.node_of(y) for y in data_yields]
+    """the generator that reads the chunks: followed as (what happened to the result of the last read) over its CFG"""
+    rf = ReadFlow(fi)
+    cfg = rf.cfg
+    ctx.floor("R1.3", f"read calls in {fi.qualname}", len(rf.reads), 1)
+    reads = sorted(rf.reads.values(), key=lambda x: (x.lineno, x.col_offset))
+    where = astq.stmt_of(fi, reads[0]) if reads else fi.node
+    data_yields = sorted(rf.data_yields.values(), key=lambda x: x.lineno)
+    other_yields = sorted(rf.other_yields.values(), key=lambda x: x.lineno)
+    dropped = sorted(rf.dropped.values(), key=lambda x: getattr(x[0], "lineno", 0))
+    unmod = bool(data_yields) and not other_yields
+    ctx.ob("R1.3", f"{fi.qualname}: every non-empty read is yielded unmodified", unmod and not dropped,
+           f"reads {[norm(r) for r in reads]}; yields of the read result itself {[norm(y) for y in data_yields]}, of something else {[norm(y) for y in other_yields]}; "
+           + (f"a non-empty read can be dropped: {[why for _, why in dropped]}" if dropped else "no path reads again or ends while bytes that were read have not been yielded"),
+           fi, (other_yields[0] if other_yields else where), "reads yielded")
+    early = sorted(rf.exit_status - {RD_EMPTY})
+    others = sorted(set(rf.other_tests.values()))
+    other_nodes = [x for x in walk_no_nested(fi.node) if id(x) in rf.other_tests]
+    ctx.ob("R1.3", f"{fi.qualname}: reading stops only on an empty read (a short read is not the end)", not early,
+           f"emptiness tests {sorted(set(rf.tests.values()))}; other tests on the read result {others}; status of the last read when the generator ends: {sorted(rf.exit_status)}"
+           + (f": it can finish without an empty read ({early})" if early else ""), fi, (other_nodes[0] if other_nodes and early else where), "stop on empty read only")
+    end_yields = sorted(rf.end_yields.values(), key=lambda x: x.lineno)
     enodes = [cfg.node_of(y) for y in end_yields]
-
-    def unwalrus(e: ast.AST) -> ast.AST:
-        return e.target if isinstance(e, ast.NamedExpr) else e
-
-    for rdef in reads:
-        rnode = rdef.node
-        assert rnode is not None
-        v = rdef.name
-
-        def value_tested(tn: Node) -> frozenset:
-            """definitions of v whose value a test in tn sees: a walrus in the test itself binds before the comparison"""
-            return rd.after(tn, v) if any(d.name == v and d.kind == "walrus" for d in rd.gen[tn.id]) else rd.reaching(tn, v)
-
-        # emptiness edges of tests on the read result
-        empties = []
-        others = []
-        for tn in cfg.tests():
-            a = tn.ast
-            if tn.kind != "test" or not any(isinstance(x, ast.Name) and x.id == v for x in ast.walk(a)):
-                continue
-            if not all(d.node is rnode for d in value_tested(tn)):
-                continue
-            a = unwalrus(a)
-            if isinstance(a, ast.Name):
-                empties.append((tn, "F"))
-                continue
-            if isinstance(a, ast.Compare) and len(a.ops) == 1 and isinstance(a.ops[0], (ast.Eq, ast.NotEq, ast.Gt, ast.Lt, ast.GtE, ast.LtE)):
-                lhs, rhs, op = unwalrus(a.left), unwalrus(a.comparators[0]), type(a.ops[0])
-                if isinstance(lhs, ast.Constant):  # 0 == len(x)  /  0 < len(x)
-                    lhs, rhs = rhs, lhs
-                    op = {ast.Gt: ast.Lt, ast.Lt: ast.Gt, ast.GtE: ast.LtE, ast.LtE: ast.GtE}.get(op, op)
-                if isinstance(lhs, ast.Call) and isinstance(lhs.func, ast.Name) and lhs.func.id == "len" and len(lhs.args) == 1:
-                    is_len, lhs = True, unwalrus(lhs.args[0])
-                else:
-                    is_len = False
-                c = rhs.value if isinstance(rhs, ast.Constant) else None
-                if isinstance(lhs, ast.Name) and lhs.id == v:
-                    # edge on which the read was empty
-                    lab = None
-                    if (is_len and c == 0 and not isinstance(c, bool)) or (not is_len and c == b""):
-                        lab = {ast.Eq: "T", ast.NotEq: "F", ast.Gt: "F", ast.LtE: "T"}.get(op) if is_len else {ast.Eq: "T", ast.NotEq: "F"}.get(op)
-                    elif is_len and c == 1 and not isinstance(c, bool):
-                        lab = {ast.Lt: "T", ast.GtE: "F"}.get(op)
-                    if lab is not None:
-                        empties.append((tn, lab))
-                        continue
-            others.append(tn)
-        unmod = bool(data_yields) and all(
-            isinstance(y.value, ast.Name) and y.value.id == v and all(d.node is rnode for d in rd.reaching(cfg.node_of(y), v)) for y in data_yields  # type: ignore[arg-type]
-        )
-        # from the read, without passing a data yield or an "it was empty" edge: reading again, or finishing, drops the chunk
-        r1 = cfg.reach(rnode, avoid_nodes=[n for n in ynodes if n is not None], avoid_edges=empties)
-        dropped = cfg.exit.id in r1 or any(s is rnode for nid in r1 for s, _ in cfg.nodes[nid].succs)
-        where = rdef.stmt or rdef.value
-        ctx.ob("R1.3", f"{fi.qualname}: every non-empty read is yielded unmodified", unmod and not dropped,
-               f"data yields {[norm(y) for y in data_yields]} yield the result of `{norm(rdef.value)}` unchanged: {unmod}; a non-empty read can be dropped: {dropped}",
-               fi, where, "reads yielded")
-        r2 = cfg.reach(rnode, avoid_edges=empties)
-        early = cfg.exit.id in r2
-        ctx.ob("R1.3", f"{fi.qualname}: reading stops only on an empty read (a short read is not the end)", not early,
-               f"emptiness tests {[norm(tn.ast) for tn, _ in empties]}; other tests on the read result {[norm(tn.ast) for tn in others]}; "
-               f"the generator can finish without an empty read: {early}", fi, (others[0].ast if others and early else where), "stop on empty read only")
+    ynodes = [cfg.node_of(y) for y in data_yields + other_yields]
     ends_ok = bool(enodes) and cfg.all_paths_pass(cfg.entry, [cfg.exit], [n for n in enodes if n is not None])
     after = set()
     for en in enodes:
         if en is not None:
-            after |= cfg.reach(en)
+            after |= cfg.reach([s_ for s_, lab in en.succs if lab != "raise"])
     data_after = any(n is not None and n.id in after for n in ynodes)
     ctx.ob("R1.3", f"{fi.qualname}: the end of input is signalled by a final `yield None`", ends_ok and not data_after,
            f"every path to the end passes {[norm(y) for y in end_yields]}: {ends_ok}; data yielded after it: {data_after}", fi, end_yields[0] if end_yields else fi.node, "final yield None")
@@ -610,7 +719,7 @@ class Splitter:
             for c in astq.method_calls(f.node, self.fi.name, nested=False):
                 if isinstance(c.func.value, ast.Name) and c.func.value.id == "self":  # type: ignore[attr-defined]
                     self.call_sites.append((f, c))
-                    hit = [i for i, a in enumerate(c.args) if self._is_buffer(a)]
+                    hit = [i for i, a in enumerate(c.args) if self._is_buffer(a, f)]
                     if len(hit) != 1:
                         raise AnalysisError(f"{f.loc(c)}: `{norm(c)}` does not pass the receive buffer as one positional argument")
                     idx.add(hit[0])
@@ -628,8 +737,18 @@ class Splitter:
         stop: set[str] = set()
         for r in self.returns:
             payload, deleted = r.value.elts[0], r.value.elts[1]  # type: ignore[attr-defined]
-            while isinstance(payload, ast.Call) and dotted(payload.func) in ("bytes", "bytearray", "memoryview") and len(payload.args) == 1:
-                payload = payload.args[0]
+            for _ in range(3):
+                while isinstance(payload, ast.Call) and dotted(payload.func) in ("bytes", "bytearray", "memoryview") and len(payload.args) == 1:
+                    payload = payload.args[0]
+                if isinstance(payload, ast.Name):  # `chunk = bytes(data[a:b])` ... `return chunk, ...`
+                    rn0 = self.cfg.node_of(r)
+                    defs0 = self.rd.reaching(rn0, payload.id) if rn0 is not None else frozenset()
+                    d0 = next(iter(defs0)) if len(defs0) == 1 else None
+                    if d0 is not None and d0.kind == "assign" and d0.index is None and d0.value is not None and d0.node is not None and all(
+                            self.rd.reaching(d0.node, x.id) == self.rd.reaching(rn0, x.id) for x in ast.walk(d0.value) if isinstance(x, ast.Name)):
+                        payload = d0.value
+                        continue
+                break
             if not (isinstance(payload, ast.Subscript) and norm(payload.value) in self.buffers and isinstance(payload.slice, ast.Slice) and payload.slice.step is None):
                 raise AnalysisError(f"{self.fi.loc(r)}: payload `{norm(payload)}` is not a slice of the buffer")
             self.release.append((r, "payload end", payload.slice.upper, payload.slice.lower))
@@ -638,18 +757,19 @@ class Splitter:
                 if isinstance(e, ast.Name):
                     stop.add(e.id)
         self.stop = stop
-        self.ev = AffEval(self.fi, folder, self.buffers, pats.nattr, stop)
-        self.ev_open = AffEval(self.fi, folder, self.buffers, pats.nattr, set())
+        self.ev = AffEval(self.fi, folder, self.buffers, pats.nattr, stop, init=(pats.init, pats.param))
+        self.ev_open = AffEval(self.fi, folder, self.buffers, pats.nattr, set(), init=(pats.init, pats.param))
+        self.ev.rewrite = self.ev_open.rewrite = self.inline  # one-expression helpers are read at the call site
         self.delims: dict[str, ast.AST] = {}
-        self.sites: dict[int, dict[str, t.Any]] = {}  # flush sites by CFG node id
-        self.holds: dict[int, dict[str, t.Any]] = {}
+        self.sites: dict[t.Any, dict[str, t.Any]] = {}  # flush sites by CFG node (and arm of a conditional expression)
+        self.holds: dict[t.Any, dict[str, t.Any]] = {}
         self.n_match = 0
         self._classify_all()
 
-    def _is_buffer(self, a: ast.AST) -> bool:
-        if is_self_attr(a, self.roles.buffer):
-            return True
-        return isinstance(a, ast.Call) and dotted(a.func) in ("bytes", "bytearray", "memoryview") and len(a.args) == 1 and is_self_attr(a.args[0], self.roles.buffer)
+    def _is_buffer(self, a: ast.AST, f: FuncInfo) -> bool:
+        if isinstance(a, ast.Call) and dotted(a.func) in ("bytes", "bytearray", "memoryview") and len(a.args) == 1:
+            a = a.args[0]
+        return attr_of(a, f) == self.roles.buffer
 
     # -- classification of release positions ---------------------------------------
     def _match_source(self, call: ast.AST, node: Node) -> ast.Call | None:
@@ -662,11 +782,115 @@ class Splitter:
         return None
 
     def _anchor_call(self, e: ast.AST) -> FuncInfo | None:
-        if isinstance(e, ast.Call) and isinstance(e.func, ast.Attribute) and isinstance(e.func.value, ast.Name) and e.func.value.id == "self":
-            _, what = self.ctx.repo.lookup(self.roles.cls, e.func.attr)
-            if isinstance(what, FuncInfo):
-                return what
+        """the package function a call runs: a method reached through self / cls / the class name, or a function of the module"""
+        if not isinstance(e, ast.Call):
+            return None
+        f = e.func
+        if isinstance(f, ast.Attribute) and isinstance(f.value, ast.Name) and f.value.id in ("self", "cls", self.roles.cls.name):
+            _, what = self.ctx.repo.lookup(self.roles.cls, f.attr)
+            return what if isinstance(what, FuncInfo) else None
+        if isinstance(f, ast.Name) and f.id not in self.ev_open.fi_locals():
+            fq = self.ctx.repo.resolve(self.fi.module, f.id)
+            return self.ctx.repo.try_func(fq) if fq and fq.startswith("werkzeug") else None
         return None
+
+    # -- one-expression helpers are read at the call site ---------------------------------------------------------------
+    def _inlinable(self, c: ast.AST) -> tuple[FuncInfo, ast.AST, dict[str, ast.AST]] | None:
+        callee = self._anchor_call(c)
+        if callee is None or callee is self.fi or anchor_summary(callee) is not None:
+            return None
+        body = [st for st in callee.node.body if not (isinstance(st, ast.Expr) and isinstance(st.value, ast.Constant))]  # type: ignore[attr-defined]
+        if len(body) != 1 or not isinstance(body[0], ast.Return) or body[0].value is None:
+            return None
+        binding = bind_args(callee, c)  # type: ignore[arg-type]
+        params = [p for p in callee.params if p not in ("self", "cls")]
+        if binding is None or set(binding) != set(params):
+            return None
+        free = {x.id for x in ast.walk(body[0].value) if isinstance(x, ast.Name)} - set(params) - {"self", "cls"}
+        if any(nm in self.ev_open.fi_locals() for nm in free):
+            return None  # a global of the helper's module that a local of this function would capture
+        return callee, body[0].value, binding
+
+    def inline(self, e: ast.AST | None, depth: int = 0) -> ast.AST | None:
+        """replace calls of private helpers whose body is one `return <expression>` (and that are not themselves a hold-back
+        anchor) by that expression with the arguments substituted: `self._hold(data, k)` -> `k + self.last_newline(data[k:])`"""
+        if e is None or depth > 2 or not any(isinstance(x, ast.Call) and self._inlinable(x) is not None for x in ast.walk(e)):
+            return e
+        sp = self
+
+        def fresh(x: ast.AST) -> ast.AST:
+            return ast.parse(ast.unparse(x), mode="eval").body  # a copy without links into the module tree
+
+        class T(ast.NodeTransformer):
+            def visit_Call(self, c: ast.Call):  # noqa: N802
+                self.generic_visit(c)
+                hit = sp._inlinable(c)
+                if hit is None:
+                    return c
+                _, expr, binding = hit
+
+                class S(ast.NodeTransformer):
+                    def visit_Name(self, nm: ast.Name):  # noqa: N802
+                        return fresh(binding[nm.id]) if nm.id in binding else nm
+
+                return S().visit(fresh(expr))
+
+        out = T().visit(fresh(e))
+        for x in ast.walk(out):
+            ast.copy_location(x, e)
+        ast.fix_missing_locations(out)
+        return self.inline(out, depth + 1)
+
+    # -- bindings of a release variable: one item per value the variable can take ------------------------------------
+    @staticmethod
+    def _atoms(test: ast.AST, label: str) -> list[tuple[ast.AST, str]]:
+        """condition of a conditional expression on one arm -> the atoms known there (a disjunction is kept whole)"""
+        if isinstance(test, ast.UnaryOp) and isinstance(test.op, ast.Not):
+            return Splitter._atoms(test.operand, "F" if label == "T" else "T")
+        if isinstance(test, ast.BoolOp) and ((isinstance(test.op, ast.And) and label == "T") or (isinstance(test.op, ast.Or) and label == "F")):
+            return [x for v in test.values for x in Splitter._atoms(v, label)]
+        return [(test, label)]
+
+    def _arms(self, value: ast.AST | None, extra: tuple) -> list[tuple[ast.AST | None, tuple]]:
+        v = value
+        while isinstance(v, ast.Call) and (dotted(v.func) or "").endswith("cast") and len(v.args) == 2:
+            v = v.args[1]
+        if isinstance(v, ast.IfExp):
+            return self._arms(v.body, extra + tuple(self._atoms(v.test, "T"))) + self._arms(v.orelse, extra + tuple(self._atoms(v.test, "F")))
+        if isinstance(v, ast.NamedExpr):
+            return self._arms(v.value, extra)
+        return [(v, extra)]
+
+    def bindings(self, e: ast.AST | None, at: Node, stmt: ast.AST) -> list[tuple[ast.AST | None, Node, ast.AST, tuple]]:
+        """(value, node where it is computed, statement, conditions of conditional expressions on the way) for every value the
+        expression can denote: release variables are followed to their bindings - plain, tuple (`a, b = x, y`; `a, b = m.span()`),
+        walrus - and conditional expressions are split into their arms"""
+        out: list[tuple[ast.AST | None, Node, ast.AST, tuple]] = []
+        if isinstance(e, ast.Name) and e.id in self.stop:
+            for d in self.rd.reaching(at, e.id):
+                v = d.value
+                if d.node is None or v is None or d.kind not in ("assign", "walrus", "unpack"):
+                    raise AnalysisError(f"{self.fi.loc(stmt)}: `{e.id}` is bound by a construct that is not modelled ({d.kind})")
+                if d.kind == "unpack":
+                    if isinstance(v, (ast.Tuple, ast.List)) and d.index is not None and d.index < len(v.elts) and not any(isinstance(x, ast.Starred) for x in v.elts) \
+                            and isinstance(d.stmt, ast.Assign) and all(isinstance(tg, (ast.Tuple, ast.List)) and len(tg.elts) == len(v.elts) for tg in d.stmt.targets):
+                        v = v.elts[d.index]
+                    elif isinstance(v, ast.Call) and isinstance(v.func, ast.Attribute) and v.func.attr == "span" and not v.args and d.index in (0, 1):
+                        v = ast.copy_location(ast.Call(func=ast.copy_location(ast.Attribute(value=v.func.value, attr=("start", "end")[d.index], ctx=ast.Load()), v), args=[], keywords=[]), v)
+                    else:
+                        raise AnalysisError(f"{self.fi.loc(stmt)}: `{e.id}` is bound by a tuple assignment that is not modelled (`{norm(d.stmt or v)}`)")
+                for arm, extra in self._arms(v, ()):
+                    if isinstance(arm, ast.Name) and arm.id in self.stop and arm.id != e.id:
+                        out += [(v2, n2, s2, extra + x2) for v2, n2, s2, x2 in self.bindings(arm, d.node, d.stmt or v)]
+                    else:
+                        out.append((arm, d.node, d.stmt or v, extra))
+        else:
+            for arm, extra in self._arms(e, ()):
+                if isinstance(arm, ast.Name) and arm.id in self.stop:
+                    out += [(v2, n2, s2, extra + x2) for v2, n2, s2, x2 in self.bindings(arm, at, stmt)]
+                else:
+                    out.append((arm, at, stmt, extra))
+        return out
 
     def classify(self, value: ast.AST | None, node: Node) -> dict[str, t.Any]:
         if value is None:
@@ -694,37 +918,48 @@ class Splitter:
         for r, what, e, lower in self.release:
             rn = self.cfg.node_of(r)
             assert rn is not None
-            items: list[tuple[ast.AST | None, Node, ast.AST]] = []
-            if isinstance(e, ast.Name) and e.id in self.stop:
-                for d in self.rd.reaching(rn, e.id):
-                    if d.kind not in ("assign",) or d.value is None or d.index is not None or d.node is None:
-                        raise AnalysisError(f"{self.fi.loc(r)}: `{e.id}` is bound by a construct that is not modelled ({d.kind})")
-                    items.append((d.value, d.node, d.stmt or d.value))
-            else:
-                items.append((e, rn, r))
-            for value, node, stmt in items:
+            for value, node, stmt, extra in self.bindings(e, rn, r):
                 c = self.classify(value, node)
-                c.update(stmt=stmt, node=node, what=what, ret=r, lower=lower, value=value)
+                c.update(stmt=stmt, node=node, what=what, ret=r, lower=lower, value=value, extra=extra)
                 self.items.append(c)
                 if c["kind"] == "MATCH":
                     self.n_match += 1
                     self.delims[norm(c["regex"])] = c["regex"]
                 elif c["kind"] == "HOLD":
-                    self.holds.setdefault(node.id, c)
+                    self.holds.setdefault((node.id, norm(value) if extra else ""), c)
                 else:
-                    self.sites.setdefault(node.id, c)
+                    self.sites.setdefault((node.id, norm(value) if extra else ""), c)
         if len(self.delims) != 1:
             raise AnalysisError(f"{self.fi.qualname}: expected one delimiter pattern whose match bounds the payload, found {sorted(self.delims)}")
         self.delim = next(iter(self.delims.values()))
         self.langs = self.pats.langs(self.fi, self.delim)
 
     # -- guards -------------------------------------------------------------------------
-    def guard_kinds(self, node: Node) -> dict[str, t.Any]:
-        """classify every branch edge that dominates node."""
+    def _through_flag(self, a: ast.AST, tn: Node, lab: str) -> list[tuple[ast.AST, Node, str]]:
+        """`far = <condition>` ... `if far:` -> the condition, read where it was computed (its operands are unchanged in between)"""
+        if isinstance(a, ast.Name) and a.id not in self.fi.params:
+            d = self.ev_open.single_def(a.id, tn)
+            if d is not None and d.node is not None and isinstance(d.value, (ast.Compare, ast.BoolOp, ast.UnaryOp)):
+                return [y for x, l2 in self._atoms(d.value, lab) for y in self._through_flag(x, d.node, l2)]
+        if isinstance(a, ast.Call) and self._inlinable(a) is not None:  # the condition sits in a one-expression helper
+            b = self.inline(a)
+            if b is not None and isinstance(b, (ast.Compare, ast.BoolOp, ast.UnaryOp)):
+                return [(x, tn, l2) for x, l2 in self._atoms(b, lab)]
+        return [(a, tn, lab)]
+
+    def guard_kinds(self, node: Node, extra: tuple = ()) -> dict[str, t.Any]:
+        """classify every branch edge that dominates node (plus the conditions of conditional expressions that select the value)."""
         out: dict[str, t.Any] = {"fact": None, "fact_expr": None, "thresholds": [], "neutral": [], "unknown": []}
-        for tn, lab in self.cfg.guards(node):
-            a = tn.ast
-            if tn.kind != "test":
+        edges: list[tuple[ast.AST | None, Node, str, str]] = [(tn.ast, tn, lab, tn.kind) for tn, lab in self.cfg.guards(node)]
+        edges += [(a, node, lab, "test") for a, lab in extra]
+        flat: list[tuple[ast.AST | None, Node, str, str]] = []
+        for a, tn, lab, kind in edges:
+            if kind == "test" and a is not None:
+                flat += [(a2, n2, l2, kind) for a2, n2, l2 in self._through_flag(a, tn, lab)]
+            else:
+                flat.append((a, tn, lab, kind))
+        for a, tn, lab, kind in flat:
+            if kind != "test":
                 out["unknown"].append(f"loop `{tn.text()}`")
                 continue
             f = self._presence(a, tn, lab)
@@ -743,7 +978,10 @@ class Splitter:
                     continue
             th = self._threshold(a, tn, lab)
             if th is not None:
-                out["thresholds"].append(th)
+                if th["release"]:
+                    out["thresholds"].append(th)
+                else:
+                    out["neutral"].append(norm(a))
                 continue
             out["unknown"].append(f"`{norm(a)}`")
         return out
@@ -753,42 +991,66 @@ class Splitter:
         if not (isinstance(a, ast.Compare) and len(a.ops) == 1):
             return None
         op, lhs, rhs = a.ops[0], a.left, a.comparators[0]
+
+        def find_call(x: ast.AST) -> ast.Call | None:
+            """`buffer.find(needle)` / `buffer.index`-free spellings, also through a local that holds the result"""
+            if isinstance(x, ast.NamedExpr):
+                x = x.value
+            if isinstance(x, ast.Name):
+                d = self.ev_open.single_def(x.id, tn)
+                x = d.value if d is not None else x
+            if isinstance(x, ast.Call) and isinstance(x.func, ast.Attribute) and x.func.attr == "find" and norm(x.func.value) in self.buffers and len(x.args) == 1 and not x.keywords:
+                return x
+            return None
+
+        def int_const(x: ast.AST) -> int | None:
+            if isinstance(x, ast.UnaryOp) and isinstance(x.op, ast.USub) and isinstance(x.operand, ast.Constant) and isinstance(x.operand.value, int):
+                return -x.operand.value
+            return x.value if isinstance(x, ast.Constant) and isinstance(x.value, int) and not isinstance(x.value, bool) else None
+
         if isinstance(op, (ast.In, ast.NotIn)) and norm(rhs) in self.buffers:
             present_if_true = isinstance(op, ast.In)
             needle = lhs
-        elif isinstance(lhs, ast.Call) and isinstance(lhs.func, ast.Attribute) and lhs.func.attr == "find" and norm(lhs.func.value) in self.buffers and len(lhs.args) == 1:
-            needle = lhs.args[0]
-            c = rhs.operand.value * -1 if isinstance(rhs, ast.UnaryOp) and isinstance(rhs.op, ast.USub) and isinstance(rhs.operand, ast.Constant) else (rhs.value if isinstance(rhs, ast.Constant) else None)
+        else:
+            fc, c, opt = find_call(lhs), int_const(rhs), type(op)
+            if fc is None and find_call(rhs) is not None:  # constant on the left
+                fc, c = find_call(rhs), int_const(lhs)
+                opt = {ast.Gt: ast.Lt, ast.Lt: ast.Gt, ast.GtE: ast.LtE, ast.LtE: ast.GtE}.get(opt, opt)
+            if fc is None or c is None:
+                return None
+            needle = fc.args[0]
             table = {(ast.Eq, -1): False, (ast.NotEq, -1): True, (ast.Lt, 0): False, (ast.GtE, 0): True, (ast.Gt, -1): True, (ast.LtE, -1): False}
-            present_if_true = table.get((type(op), c))  # type: ignore[arg-type]
+            present_if_true = table.get((opt, c))  # type: ignore[arg-type]
             if present_if_true is None:
                 return None
-        else:
-            return None
         present = present_if_true if lab == "T" else not present_if_true
         return ("present" if present else "absent", needle)
 
     def _threshold(self, a: ast.AST, tn: Node, lab: str):
-        """`len(buffer) - R  OP  T` on a release variable R -> dict(var, teff: Lin) when the edge means `pending tail > teff`."""
+        """`len(buffer) - P  OP  T` with P a hold-back position (anchor call + offsets, written out or held in a local) and T affine
+        in the boundary length -> dict(var, teff: Lin, anchors) when the edge means `pending tail > teff`."""
         if not (isinstance(a, ast.Compare) and len(a.ops) == 1 and isinstance(a.ops[0], (ast.Gt, ast.GtE, ast.Lt, ast.LtE))):
             return None
+        ev = self.ev_open
         try:
-            d = self.ev.aff(a.left, tn) - self.ev.aff(a.comparators[0], tn)
+            d = ev.aff(a.left, tn) - ev.aff(a.comparators[0], tn)
         except NotAffine:
             return None
-        rvars = [s for s in d.coef if s.startswith("name:")]
-        if len(rvars) != 1 or not d.only({"D", "n", rvars[0]}):
-            return None
         sgn = d.coef.get("D", 0)
-        if sgn not in (1, -1) or d.coef[rvars[0]] != -sgn:
+        if sgn not in (1, -1):
+            return None
+        # sgn * d = (D - P) - T : P = the part that is neither the buffer length, the boundary length nor a constant
+        P = Aff({k: -sgn * v for k, v in d.coef.items() if k not in ("D", "n")})
+        ops = [k for k in P.coef if k.startswith("op:")]
+        if len(ops) != 1 or P.coef[ops[0]] != 1 or any(v != 1 for v in P.coef.values()):
+            return None
+        call = ev.opaque.get(ops[0])
+        afi = self._anchor_call(call) if call is not None else None
+        if afi is None:
             return None
         op = type(a.ops[0])
-        # sgn*(tail) + rest OP 0
-        rest = Lin(d.coef.get("n", 0), d.const)
-        if sgn == 1:
-            T = Lin(-rest.a, -rest.c)  # tail OP T
-        else:
-            T = rest  # -tail + rest OP 0  <=>  tail OP' rest
+        T = Lin(-sgn * d.coef.get("n", 0), -sgn * d.const)  # tail OP T (sgn = 1) or T' OP' tail
+        if sgn == -1:
             op = {ast.Gt: ast.Lt, ast.GtE: ast.LtE, ast.Lt: ast.Gt, ast.LtE: ast.GtE}[op]
         if lab == "F":
             op = {ast.Gt: ast.LtE, ast.GtE: ast.Lt, ast.Lt: ast.GtE, ast.LtE: ast.Gt}[op]
@@ -797,23 +1059,10 @@ class Splitter:
         elif op is ast.GtE:
             teff = T.minus(1)
         else:
-            return None  # the edge means "tail is short": not a release threshold
-        var = rvars[0][5:]
-        defs = self.rd.reaching(tn, var)
-        anchors = []
-        for dd in defs:
-            if dd.kind != "assign" or dd.value is None or dd.node is None:
-                return None
-            try:
-                c = self.classify(dd.value, dd.node)
-            except AnalysisError:
-                return None
-            if c["kind"] != "HOLD":
-                return None
-            anchors.append(c)
-        if not anchors:
-            return None
-        return {"var": var, "teff": teff, "test": a, "anchors": anchors}
+            return {"release": False, "test": a}  # the edge means "tail is short": understood, but not a release threshold
+        names = [x.id for side in (a.left, a.comparators[0]) for x in ast.walk(side) if isinstance(x, ast.Name) and x.id in ev.fi_locals() and x.id not in self.buffers]
+        var = next((nm for nm in names if (dd := ev.single_def(nm, tn)) is not None and any(self._anchor_call(x) is afi for x in ast.walk(dd.value))), None) or norm(call)
+        return {"release": True, "var": var, "teff": teff, "test": a, "anchors": [{"kind": "HOLD", "anchor": afi, "call": call, "aff": P}]}
 
     # -- R1.7: deleted prefix vs payload start -----------------------------------------
     def is_buffer_index(self, name: str, node: Node) -> bool:
@@ -888,9 +1137,10 @@ class Splitter:
             n = cfg.node_of(c)
             if n is None:
                 continue
+            rd = ReachingDefs(cfg, f.params)
             for tn, _ in cfg.guards(n):
                 a = tn.ast
-                if tn.kind == "test" and isinstance(a, ast.Compare) and is_self_attr(a.left, self.roles.state):
+                if tn.kind == "test" and a is not None and state_test_parts(f, rd, a, tn, self.roles) is not None:
                     continue
                 out.append(f"`{tn.text()}` at {f.loc(a)}")
         return out
@@ -909,7 +1159,7 @@ def rules_splitter(ctx: Ctx, roles: Roles, pats: Patterns, folder: Folder) -> No
 
     for nid, site in sorted(sp.sites.items(), key=lambda kv: kv[1]["node"].lineno):
         node: Node = site["node"]
-        g = sp.guard_kinds(node)
+        g = sp.guard_kinds(node, site.get("extra", ()))
         fact = g["fact"]
         # longest incomplete delimiter that may sit at the end of the buffer here
         vals, example = [], b""
@@ -1039,13 +1289,13 @@ def rules_splitter(ctx: Ctx, roles: Roles, pats: Patterns, folder: Folder) -> No
             summ = anchor_summary(h["anchor"])
             if summ is None or not all(k_ == "end" for k_, _ in summ[1]):
                 raise AnalysisError(f"{fi.loc(call)}: hold-back scan starts late and `{h['anchor'].qualname}` has a shape that is not modelled: cannot decide what is released when the scanned region has no line break")
-            unknown = list(call_unknown) + sp.guard_kinds(node)["unknown"]
+            unknown = list(call_unknown) + sp.guard_kinds(node, h.get("extra", ()))["unknown"]
             for _, _, dn in late:
                 if dn is not None:
                     unknown += sp.guard_kinds(dn)["unknown"]
             if unknown:
                 raise AnalysisError(f"{fi.loc(call)}: hold-back with a late scan start is guarded by conditions that are not modelled: {unknown}")
-        g = sp.guard_kinds(node)
+        g = sp.guard_kinds(node, h.get("extra", ()))
         branch = {None: "any buffer", "present": "boundary text present", "absent": "boundary text absent"}[g["fact"]]
         ctx.ob("R1.6", f"{fi.qualname}: the hold-back scan starts no later than the delimiter search", not late,
                f"`{rx_txt}.search({sp.data})` looks for a delimiter from offset 0; `{norm(call)}` scans for a line break from {sorted({txt for txt, _, _ in lows})}"
@@ -1078,7 +1328,7 @@ def rules_splitter(ctx: Ctx, roles: Roles, pats: Patterns, folder: Folder) -> No
         except NotAffine as e:
             raise AnalysisError(f"{fi.loc(it['stmt'])}: cannot bound `{norm(it['value'])}` against the payload start `{norm(lower) if lower is not None else 0}`: {e}")
         ok = lb is not None and lb >= 0
-        g = sp.guard_kinds(node)
+        g = sp.guard_kinds(node, it.get("extra", ()))
         if node is not rn:
             g2 = sp.guard_kinds(rn)
             g["unknown"] = g["unknown"] + [u for u in g2["unknown"] if u not in g["unknown"]]
